@@ -1,9 +1,7 @@
 package transpiler
 
 import (
-	logql_transpiler "github.com/metrico/qryn/reader/logql/logql_transpiler_v2/clickhouse_planner"
 	"github.com/metrico/qryn/reader/logql/logql_transpiler_v2/shared"
-	"github.com/metrico/qryn/reader/promql/parser"
 	sql "github.com/metrico/qryn/reader/utils/sql_select"
 	"github.com/prometheus/prometheus/model/labels"
 )
@@ -13,17 +11,6 @@ type StreamSelectPlanner struct {
 }
 
 func (s *StreamSelectPlanner) Process(ctx *shared.PlannerContext) (sql.ISelect, error) {
-	var (
-		labelNames []string
-		ops        []string
-		values     []string
-	)
-	for _, _matcher := range s.Matchers {
-		matcher := parser.LabelMatcher{Node: _matcher}
-		labelNames = append(labelNames, matcher.GetLabel())
-		ops = append(ops, matcher.GetOp())
-		values = append(values, matcher.GetVal())
-	}
-	plannerStreamSelect := logql_transpiler.NewStreamSelectPlanner(labelNames, ops, values)
-	return plannerStreamSelect.Process(ctx)
+	// the same label index query as on the raw-sample path (regular expressions anchored)
+	return fingerprintsQuery(ctx, s.Matchers...)
 }
